@@ -98,6 +98,25 @@ def run(pid, tier, replay=None):
             if res.generated - res.init_states != summ["edges"]:
                 raise Broken("emitted %d transitions but replayed %d (%s)" % (res.generated - res.init_states, summ["edges"], name))
         files += glob.glob(sc.path("g-%s-*.ndjson" % name))
+    # long random histories on one live object (lengths up to ~250, several growth steps): each step judged by SeqTrace on its own
+    rexe = exe
+    nh, no = (16, 600) if tier == "quick" else (200, 1500)
+    rr = vlib.run_harness([rexe, "random", str(ck.seed), str(nh), str(no), sc.path("rnd"), "14"], timeout=1800)
+    mrr = re.search(r"^SUMMARY (\{.*\})$", rr.stdout or "", re.M)
+    if rr.returncode != 0 or not mrr:
+        if rr.returncode in (97, 98, 99, -6, -11) or "Sanitizer" in (rr.stderr or ""):
+            ck.violation("crash:seq:random-history", {"what": "sanitizer abort during a long random history", "stderr": (rr.stderr or "")[-1500:], "stdout": (rr.stdout or "")[-600:]})
+        else:
+            raise Broken("random-history run failed rc=%s: %s" % (rr.returncode, (rr.stderr or "")[-800:]))
+    else:
+        rfiles = vlib.drop_partial_lines(sorted(glob.glob(sc.path("rnd-*.ndjson"))))
+        rn, rbad = vlib.validate_collect(os.path.join(SPECDIR, "SeqTrace.tla"), os.path.join(SPECDIR, "SeqTrace.cfg"), rfiles, sc)
+        for f, idx, ev in rbad:
+            ck.violation("trace:%s:%s:random-history" % ("vec" if ev.get("kind") == 1 else "buf", ev.get("op")),
+                         {"what": "TLC rejected a step of a long random history", "event": {k: ev[k] for k in ev if k not in ("pre", "post")}, "pre_len": len(ev.get("pre", {}).get("seq", [])), "post_len": len(ev.get("post", {}).get("seq", []))})
+        ck.cov["traces_validated_against_impl"] += rn
+        ck.cov["evaluations"] += rn + len(rbad)
+        ck.part("random_histories", histories=nh, steps_each=no, events_accepted=rn)
     ck.part("coverage_by_operation", **{OPS[i]: n for i, n in enumerate(opcount) if i and i < 24})
     ck.part("coverage_by_case", **{CASES[i]: n for i, n in enumerate(casecount) if i < len(CASES)})
     missing = [OPS[i] for i in range(1, 24) if opcount[i] == 0] + [CASES[i] for i in range(1, 7) if casecount[i] == 0]
